@@ -180,7 +180,7 @@ Section Decomp.
   Proof.
     unfold PRE, plan_pre. simpl. rewrite forallb_app. apply andb_true_intro. split.
     - destruct (is_link fs0 (sc_req sc)); reflexivity.
-    - simpl. unfold okA at 1. simpl. fold tmpd. rewrite path_eqb_refl. simpl. apply forallb_map_const. reflexivity.
+    - simpl. unfold okA at 1. simpl. fold tmpd. rewrite path_eqb_refl. simpl. apply forallb_map_const. intros h. destruct (has_nul (tpath tens h)); reflexivity.
   Qed.
   Lemma B1_okA : prog_all okA B1 = true.
   Proof.
@@ -389,9 +389,14 @@ Section Decomp.
 
 
   (* final outcome of plan_save *)
+  (* no external tensor to be written has an embedded NUL in its path (os.path.samefile would raise
+     ValueError outside the try block, see C08_samefile_valueerror_refuted) *)
+  Definition nul_free : Prop :=
+    existsb (fun h => has_nul (tpath tens h)) (ext_handles (sc_tensors sc)) = false.
+
   Definition FinalA (c : ctl) (s : st) (r : sig) : Prop :=
     InvA s /\ r <> SOk
-    /\ (crash_at c = None ->
+    /\ (crash_at c = None -> nul_free ->
         (forall p, T tmpd p = true -> lookup (s_fs s) p = None) \/ In (OFail true) (s_trace s)).
   Definition FinalB (c : ctl) (s : st) (r : sig) : Prop :=
     exists d m s1, InvB d m s /\ InvA s1 /\ PreRepl c s1 d m
@@ -408,10 +413,11 @@ Section Decomp.
   Definition TNone (s : st) : Prop := forall p, T tmpd p = true -> lookup (s_fs s) p = None.
 
   Lemma pre_raise_TNone c s :
-    InvA s -> TNone s -> forall e, snd (exec_acts c PRE s) = SRaise e -> TNone (fst (exec_acts c PRE s)).
+    InvA s -> TNone s -> nul_free -> forall e, snd (exec_acts c PRE s) = SRaise e -> TNone (fst (exec_acts c PRE s)).
   Proof.
-    intros HA HN e. unfold PRE, plan_pre.
-    set (probes := map (fun h => ASameFile (tpath tens h) (dest_of fs0 (sc_req sc))) (ext_handles (sc_tensors sc))).
+    intros HA HN Hnf e. unfold PRE, plan_pre.
+    set (probes := map (fun h => if has_nul (tpath tens h) then ASameFileNul (tpath tens h) (dest_of fs0 (sc_req sc))
+                                 else ASameFile (tpath tens h) (dest_of fs0 (sc_req sc))) (ext_handles (sc_tensors sc))).
     assert (Hprobe : forall a s0, (exists p, a = AIsLink p) \/ (exists p, a = ARealpath p) \/ (exists p q, a = ASameFile p q) ->
               (snd (perform c a s0) = SOk \/ snd (perform c a s0) = SCrash) /\ s_fs (fst (perform c a s0)) = s_fs s0).
     { intros a s0 Ha. destruct Ha as [(p & ->)|[(p & ->)|(p & q & ->)]]; unfold perform; simpl;
@@ -427,7 +433,12 @@ Section Decomp.
     { intros s0 HN0 e' Hr. rewrite exec_acts_cons in *.
       assert (Hpr : forall s', snd (exec_acts c probes s') <> SRaise e').
       { intros s'. apply Hprobes. unfold probes. apply Forall_forall. intros a Ha.
-        apply in_map_iff in Ha. destruct Ha as (h & <- & _). eauto. }
+        apply in_map_iff in Ha. destruct Ha as (h & <- & Hin).
+        assert (X : has_nul (tpath tens h) = false).
+        { unfold nul_free in Hnf. destruct (has_nul (tpath tens h)) eqn:E; [|reflexivity].
+          assert (Y : existsb (fun h => has_nul (tpath tens h)) (ext_handles (sc_tensors sc)) = true)
+            by (apply existsb_exists; exists h; auto). congruence. }
+        rewrite X. eauto. }
       destruct (perform_cases c (AMkdtemp (sc_tmpd sc)) s0) as [E|[E|E]]; rewrite E in *.
       - exact HN0.
       - exact HN0.
@@ -482,12 +493,12 @@ Section Decomp.
     pose proof (exec_acts_nocrash c PRE s0) as Hnc1.
     destruct (exec_acts c PRE s0) as [s1 r1]. cbn [fst snd] in *.
     destruct r1 as [ |e| ].
-    2:{ left. split; [exact H1|split; [discriminate|]]. intros _. left. eapply Hpr. reflexivity. }
-    2:{ left. split; [exact H1|split; [discriminate|]]. intros Hc. exfalso. apply (Hnc1 Hc). reflexivity. }
+    2:{ left. split; [exact H1|split; [discriminate|]]. intros _ Hnf. left. eapply Hpr; [exact Hnf|reflexivity]. }
+    2:{ left. split; [exact H1|split; [discriminate|]]. intros Hc _. exfalso. apply (Hnc1 Hc). reflexivity. }
     rewrite exec_seq.
     destruct (try_spec c s1 H1) as [(HA & Hr & Hc)|(d & m & HB & HP & Hc)].
     - destruct (exec c TRY s1) as [s2 r2]. cbn [fst snd] in *. left.
-      destruct r2 as [ |e| ]; [congruence| |]; (split; [exact HA|split; [discriminate|]]); intros Hcr;
+      destruct r2 as [ |e| ]; [congruence| |]; (split; [exact HA|split; [discriminate|]]); intros Hcr _;
         destruct (Hc Hcr) as [_ [[X1 X2]|X]];
         solve [left; apply TNone_of_shape; [exact (proj1 HA)|exact X1|exact X2] | right; exact X].
     - destruct (exec c TRY s1) as [s2 r2]. cbn [fst snd] in *. right.
